@@ -19,6 +19,7 @@ format but not any :py:mod:`cutplace.fields` or :py:mod:`cutplace.checks`.
 import csv
 import datetime
 import io
+import math
 import os
 import zipfile
 from contextlib import closing
@@ -717,6 +718,22 @@ class XlsxRowWriter(AbstractRowWriter):
                     item.encode("utf-8")
                 except UnicodeEncodeError as error:
                     raise errors.DataFormatError("cannot write cell to Excel file: %s" % error, self.location)
+                if item.startswith("<r>") and item.endswith("</r>"):
+                    # xlsxwriter takes such a text for rich text markup and copies it into the workbook as XML.
+                    raise errors.DataFormatError(
+                        "cannot write cell to Excel file: text must not be enclosed in <r>...</r>: %r" % item,
+                        self.location,
+                    )
+            elif not isinstance(item, (datetime.date, datetime.time)):
+                try:
+                    is_finite_number = math.isfinite(item)
+                except (TypeError, OverflowError):
+                    is_finite_number = False
+                if not is_finite_number:
+                    raise errors.DataFormatError(
+                        "cannot write cell to Excel file: value must be a string, a date or a finite number: %r" % (item,),
+                        self.location,
+                    )
         if exceeds_excel_limits:
             raise errors.DataFormatError(
                 "cannot write row to Excel file because it exceeds the limits of Excel "
